@@ -23,64 +23,6 @@ func zzCat(parts ...[]byte) []byte {
 	return out
 }
 
-// ZZ_C18_ReadStep: one Read from an arbitrary representable wsConn state.
-// Ghost "pending stream" = buf[r:] ++ payload of the one scripted message.
-func ZZ_C18_ReadStep() {
-	maxL := zzrt.Param("L")
-	hasBuf := zzrt.Bool()
-	var buf []byte
-	r := 0
-	if zzrt.ConcreteBool(hasBuf) {
-		L := zzrt.Concrete(zzrt.IntRange(0, maxL))
-		buf = zzrt.Bytes(L)
-		r = zzrt.Concrete(zzrt.IntRange(0, L)) // invariant: 0 <= r <= len(buf)
-	}
-	mlen := zzrt.Concrete(zzrt.IntRange(0, maxL))
-	mtyp := websocket.BinaryMessage
-	if zzrt.ConcreteBool(zzrt.Bool()) {
-		mtyp = websocket.TextMessage
-	}
-	msg := zzWSMsg{mtyp, zzrt.Bytes(mlen)}
-	conn, done := zzWSConn([]zzWSMsg{msg})
-	defer done()
-	ws := &wsConn{c: conn, buf: buf, r: r}
-	p := make([]byte, zzrt.Concrete(zzrt.IntRange(0, maxL)))
-
-	var pre []byte
-	if buf != nil {
-		pre = append(pre, buf[r:]...)
-	}
-	n, err := ws.Read(p)
-	zzrt.Observe("n", n)
-	zzrt.Observe("err", err != nil)
-
-	zzrt.Assert(n >= 0 && n <= len(p), "read-n-in-range")
-	if buf == nil && mtyp == websocket.TextMessage {
-		zzrt.Assert(err == ErrInvalWsMsgType && n == 0, "text-message-rejected")
-		zzrt.Cover("text-rejected")
-		return
-	}
-	zzrt.Assert(err == nil, "no-error-on-binary")
-	// representation invariant re-established
-	zzrt.Assert(ws.r >= 0 && (ws.buf != nil || ws.r == 0) && ws.r <= len(ws.buf), "invariant")
-	var post []byte
-	if ws.buf != nil {
-		post = ws.buf[ws.r:]
-	}
-	zzrt.Observe("postlen", len(post))
-	got := zzCat(p[:n], post)
-	// k = 0: message not consumed; k = 1: consumed
-	eq0 := zzrt.BytesEq(zzCat(got, msg.payload), zzCat(pre, msg.payload))
-	eq1 := zzrt.BytesEq(got, zzCat(pre, msg.payload))
-	if buf != nil {
-		zzrt.Assert(eq0, "no-byte-lost")
-	} else {
-		zzrt.Assert(eq1, "no-byte-lost")
-	}
-	_ = eq1
-	zzrt.Cover("binary-read")
-}
-
 // ZZ_C18_Stream: q binary/text messages, reads of arbitrary sizes until the first
 // error; everything returned must be the concatenation of the binary payloads that
 // precede the first text message.
